@@ -184,9 +184,12 @@ Theorem finalize_ops_allowed o : forall ds st,
 Proof.
   induction ds as [|d r IH]; intros st; cbn [finalize_writes]; [apply TP_ret|].
   apply TP_bind.
-  - destruct d as [data dest nn bk cf pa]. eapply TP_weaken; [apply (TP_write_now o dest dest)|].
+  - destruct d as [data dest nn bk cf pa]. cbn [d_dest]. eapply TP_weaken; [apply (TP_ensure_outf o dest dest)|].
     intros op A. eexists. split; [left; reflexivity|exact A].
-  - intros st'. eapply TP_weaken; [apply IH|]. intros op (d0 & I & A). exists d0. split; [right; exact I|exact A].
+  - intros _. apply TP_bind.
+    + destruct d as [data dest nn bk cf pa]. eapply TP_weaken; [apply (TP_write_now o dest dest)|].
+      intros op A. eexists. split; [left; reflexivity|exact A].
+    + intros st'. eapply TP_weaken; [apply IH|]. intros op (d0 & I & A). exists d0. split; [right; exact I|exact A].
 Qed.
 
 (* a refusal (target not a regular file; read-only with --read-only=fail) performs nothing but the write of the reject file *)
